@@ -58,6 +58,10 @@ func init() {
 		{"C07", "adder", props.C07adder},
 		{"C05", "adder", props.C07adder},
 		{"C04", "adder", props.C07adder},
+		{"C01", "halfgate", props.HalfGateModel},
+		{"C17", "halfgate", props.HalfGateModel},
+		{"C17", "evalreadonly", props.EvalReadsTablesOnly},
+		{"C01", "evalreadonly", props.EvalReadsTablesOnly},
 		{"C17", "garble", props.C01},
 		{"C17", "offset", props.C01offset},
 		{"C17", "entropy", props.C17entropy},
@@ -403,6 +407,9 @@ func main() {
 	replay := *replayPath
 	exec := func(run *report.Run, arch string) bool {
 		p, err := load.Load(load.Config{Dir: *repo, VTA: *tier == "thorough", GOARCH: arch, Tags: *tags})
+		if err == nil {
+			props.PrepareModels(p)
+		}
 		if err != nil {
 			run.Undecided("load", *repo, "", err.Error())
 			return false
@@ -441,6 +448,9 @@ func runAll(repo, verif, tier, goarch, tags string) int {
 	props.Deep = tier == "thorough"
 	known, kerr := report.LoadKnown(filepath.Join(verif, "known_findings.txt"))
 	p, err := load.Load(load.Config{Dir: repo, VTA: tier == "thorough", GOARCH: goarch, Tags: tags})
+	if err == nil {
+		props.PrepareModels(p)
+	}
 	ids := map[string][]string{}
 	for k := range registry {
 		ids[k[:3]] = append(ids[k[:3]], k)
